@@ -963,6 +963,42 @@ def r5_link(program, rep):
     rep.floor("C09-R5", 8)
 
 
+# The states a core reports in vcpu.cpu_state, as SARK numbers them (sark.h,
+# cpu_state_e): a fact about the machine, like the SCP return codes.
+APPSTATE_WIRE = {
+    "dead": 0, "power_down": 1, "runtime_exception": 2, "watchdog": 3,
+    "init": 4, "wait": 5, "c_main": 6, "run": 7, "sync0": 8, "sync1": 9,
+    "pause": 10, "exit": 11, "idle": 15}
+
+
+def r_appstate_wire(program, rep, folder, rule):
+    """consts.AppState: every state SARK can report has a member with SARK's
+    number.  The per-core read-back does ``AppState(<byte read>)``: a number
+    without a member is a ValueError in the middle of loading / probing, and
+    a member with the wrong number classifies cores under another state."""
+    states = folder.name(CONSTS, "AppState")
+    have = {m.name: m.value for m in states}
+    inst = CONSTS + ":AppState"
+    for name, val in sorted(APPSTATE_WIRE.items()):
+        if name not in have:
+            continue            # (a renamed member: its users are checked)
+        rep.check(have[name] == val, rule, inst,
+                  "state %s = %d as SARK reports it" % (name, val),
+                  construct="AppState.%s = %r" % (name, have[name]),
+                  positive=True,
+                  fail="AppState.%s is %r but SARK reports %d for that "
+                       "state: cores are classified under the wrong state"
+                       % (name, have[name], val))
+    missing = sorted(set(APPSTATE_WIRE.values()) - set(have.values()))
+    rep.check(not missing, rule, inst, "every state number SARK reports has "
+              "a member", construct="AppState numbers missing %s" % missing,
+              positive=True,
+              fail="no member of AppState has the number(s) %s, which SARK "
+                   "reports for cores in that state: AppState(<byte read>) "
+                   "raises ValueError when such a core is looked at - "
+                   "loading / probing dies instead of going on" % missing)
+
+
 def check(program, rep):
     program.module(MC)
     folder = Folder(program)
@@ -987,6 +1023,18 @@ def check(program, rep):
     from .. import namelink as _nl
     rep.guard("C09-R6", _nl.rule, program, rep, "C09-R6",
               [m for m in sorted(program.modules) if m.startswith("rig.machine_control")])
+    # every command of this operation travels under a sequence number: the
+    # numbers fit the 16-bit wire field and use all of it (C06-R2)
+    from . import C06 as _C06
+    rep.guard("C06-R2", _C06.r2_seq_numbers, program, rep, folder)
+    rep.guard("C09-R4", r_appstate_wire, program, rep, folder, "C09-R4")
+    # the flood fill selects the cores of the application through the region
+    # tree: what the tree hands out is every (chip, core) put into it (C12-R3
+    # - a selection lost in the tree is a core that is never loaded, and the
+    # load is reported as failed on a healthy machine)
+    from . import C12 as _C12
+    rep.guard("C12-R3", _C12.r3_collapse, program, folder, rep)
+    rep.guard("C12-R3", _C12.r3_grouping, program, rep)
     return finish(rep, program, EXPLANATION, NOT_DECIDED,
                   trusted=["documented flood-fill command word layouts",
                            "LININV engine axioms"])
